@@ -447,7 +447,11 @@ func (o *snapshotter) cleanupDirectories(ctx context.Context, cleanupCommitted b
 func (o *snapshotter) getCleanupDirectories(ctx context.Context, t storage.Transactor, cleanupCommitted bool) ([]string, error) {
 	ids, err := storage.IDMap(ctx)
 	if err != nil {
-		return nil, err
+		if !errdefs.IsNotFound(err) {
+			return nil, err
+		}
+		// The metadata store has no snapshot (yet): every directory is an orphan.
+		ids = make(map[string]string)
 	}
 
 	snapshotDir := filepath.Join(o.root, "snapshots")
@@ -475,7 +479,7 @@ func (o *snapshotter) getCleanupDirectories(ctx context.Context, t storage.Trans
 				}
 			}
 			return nil
-		}); err != nil {
+		}); err != nil && !errdefs.IsNotFound(err) {
 			return nil, err
 		}
 	}
